@@ -53,6 +53,10 @@ def cases(tier, seed):
         for c in range(nchunks):
             cs.append({"kind": "faults", "tool": tool, "seed": seed * 100 + 5, "chunk": [c, nchunks],
                        "cap": 400 if tier == "quick" else 4000})
+    # scale: combine on a level of 576 boxes (a sample of its several thousand fault points)
+    for c in ((seed % 8,) if tier == "quick" else range(8)):
+        cs.append({"kind": "faults", "tool": "combine_byfile", "seed": seed * 100 + 5, "chunk": [c, 8], "many": True,
+                   "cap": 200 if tier == "quick" else 600})
     # the same through the console entry points (argument parsing, exit status): a sample of the points
     for tool in ["colander", "combine", "chef", "mandoline_array", "mandoline_plotfile", "chk2plt"]:
         for c in ((seed % 6,) if tier == "quick" else range(6)):
@@ -90,7 +94,7 @@ def setup():
 
 # ------------------------------------------------------------------ sandbox and invocations
 class Sandbox:
-    def __init__(self, work, seed, tiny=False):
+    def __init__(self, work, seed, tiny=False, many=False):
         self.root = os.path.join(work, "S")
         self.ind = os.path.join(self.root, "in")
         self.cwd = os.path.join(self.root, "cwd")
@@ -109,6 +113,9 @@ class Sandbox:
         gen.write_plotfile(self.m2, self.plt2)
         # a pair stored in header order with identical layouts: combine's sequential file-by-file mode
         kw3 = dict(kw); kw3.update(shuffle=False)
+        if many:      # scale: 576 one-cell boxes at the level, four binary files, stored in header order
+            kw3.update(nlevels=1, bf=1, maxsz=1, base=[8, 8, 9], nfiles=4)
+            kw3.pop("base_blocks", None)
         self.m3 = gen.gen_model(**kw3)
         self.plt3 = os.path.join(self.ind, "plt00030")
         gen.write_plotfile(self.m3, self.plt3)
@@ -431,7 +438,9 @@ def out_digest(paths):
 
 def run_faults(case, work, rec):
     tool = case["tool"]
-    sb = Sandbox(work, case["seed"], tiny=True)
+    sb = Sandbox(work, case["seed"], tiny=not case.get("many"), many=bool(case.get("many")))
+    if case.get("many"):
+        rec.count("scale_cases")
     make_refY(sb)
     rec.seen("tools", tool)
     outarg, out_abs = (None, None) if tool == "marinate" else explicit_out(tool, sb, None)
